@@ -245,6 +245,11 @@ class LockAnalysis:
                 return None
             d = incb_op(t)
             if d:
+                if report:
+                    run.oblige('R-LOCK-CB', lk != 'U', '%s:in_callback-write' % name)
+                if lk == 'U':
+                    viol('R-LOCK-CB', ev, 'in_callback-unlocked', 'global_lock.in_callback is changed while the global lock is not held (races with the owner; its unlock then does not release the mutex or releases it early)', ctx)
+                    return []
                 e = env.copy()
                 e.ts['cb'] = max(-CBMAX, min(CBMAX, cb + d))
                 return [e]
